@@ -52,6 +52,16 @@ def classify_np(dt):
     return {"kind": "other", "name": dt.name}
 
 
+_SE = {}
+
+
+def _str_enum(n):
+    import enum
+    if n not in _SE:
+        _SE[n] = enum.Enum("DT_" + n, {"member": n}, type=str).member
+    return _SE[n]
+
+
 def collect():
     import numpy as np
     import jax
@@ -190,6 +200,17 @@ def collect():
             for cat in cats:
                 rows.append({"kind": "dtype", "backend": "tensorflow", "dtype": tn, "cls": cls, "cat": cat,
                              "res": check(arr, tf.Tensor, cat)})
+            # a legacy (non-resource) variable in a graph reports the REFERENCE dtype (float32_ref ...): same elements, same category
+            if not (t.is_quantized or tn in ("string", "float8_e4m3fn", "float8_e5m2", "int4", "uint4")):
+                try:
+                    with tf.Graph().as_default():
+                        legacy = tf.compat.v1.Variable(np.zeros(2, dtype=t.as_numpy_dtype), use_resource=False)
+                        if legacy.dtype.name.endswith("_ref"):
+                            for cat in cats:
+                                rows.append({"kind": "dtype", "backend": "tensorflow-ref-variable", "dtype": legacy.dtype.name, "cls": cls,
+                                             "cat": cat, "res": check(legacy, tf.Variable, cat)})
+                except Exception:
+                    pass
     except ImportError:
         pass
     # ---- duck arrays: string dtypes and torch-style dtype objects (repr 'pkg.float32')
@@ -212,6 +233,11 @@ def collect():
             rows.append({"kind": "dtype", "backend": "duck-str", "dtype": n, "cls": cls, "cat": cat, "res": check(Duck(n), Duck, cat)})
             rows.append({"kind": "dtype", "backend": "duck-torchstyle", "dtype": n, "cls": cls, "cat": cat,
                          "res": check(Duck(TorchStyle(n)), Duck, cat)})
+            # a dtype that IS a string, but of a subclass of str (np.str_ read back from a string array, a str-Enum member)
+            rows.append({"kind": "dtype", "backend": "duck-strsubclass", "dtype": n, "cls": cls, "cat": cat,
+                         "res": check(Duck(np.str_(n)), Duck, cat)})
+            rows.append({"kind": "dtype", "backend": "duck-strenum", "dtype": n, "cls": cls, "cat": cat,
+                         "res": check(Duck(_str_enum(n)), Duck, cat)})
     # ---- user-defined categories
     from jaxtyping import AbstractDtype
 
